@@ -10,11 +10,13 @@ namespace TdVerif.Compile
 /-- how the caller spelled `batch_size` -/
 inductive BsSpelling where
   | size (l : List Int)   -- torch.Size
-  | tuple (l : List Int)
-  | list (l : List Int)
+  | tuple (l : List Int)  -- a tuple of integers
+  | list (l : List Int)   -- a list of integers
+  | iter (l : List Int)   -- any other iterable of integers: range, numpy array, 1-d integer tensor, dict keys, set …
+  | badSeq                -- a tuple / list / other iterable with a member that is no integer (float, None, str …)
   | int (n : Int)
   | none
-  | other                 -- any other object (torch.Size(obj) raises)
+  | other                 -- any other object: not iterable, or a str / bytes (torch.Size(obj) raises)
   deriving Repr
 
 /-- the `source` argument: a tensordict with a batch size, or anything else -/
@@ -28,22 +30,32 @@ def parseBsEager : BsSpelling → Src → Option (List Int)
   | .size l, _ => some l
   | .tuple l, _ => some l
   | .list l, _ => some l
+  | .iter l, _ => some l
   | .none, _ => some []
   | .int n, _ => some [n]
+  | .badSeq, .td bs => some bs
+  | .badSeq, .other => Option.none
   | .other, .td bs => some bs
   | .other, .other => Option.none
 
-/-- compile branch: explicit isinstance ladder -/
+/-- compile branch (round 2b): explicit tests in the order of tensordict/_td.py:_parse_batch_size —
+torch.Size, None, Number, then "iterable and not str/bytes": every member index-like → that size, otherwise
+(and for every other object) the source decides -/
 def parseBsCompile (b : BsSpelling) (s : Src) : Option (List Int) :=
   match b with
   | .size l => some l
-  | .tuple l => some l
-  | .list l => some l
+  | .none => some []
+  | .int n => some [n]
   | _ =>
-    match b with
-    | .none => some []
-    | .int n => some [n]
-    | _ => match s with
+    let fromIterable : Option (List Int) := match b with
+      | .tuple l => some l
+      | .list l => some l
+      | .iter l => some l
+      | _ => Option.none
+    match fromIterable with
+    | some l => some l
+    | Option.none =>
+      match s with
       | .td bs => some bs
       | .other => Option.none
 
